@@ -207,22 +207,24 @@ class PathGen:
     def gen_arg(self, chain, pdepth, allow_tuple=True):
         rng = self.rng
         r = rng.random()
-        if r < 0.45:
+        if r < 0.4:
             return ["p", self.gen_path(chain, maxlen=3, pdepth=pdepth, minlen=0 if rng.random() < 0.1 else 1)]
-        if r < 0.8:
+        if r < 0.7:
             c = rng.choice(SCALARS + [[], [1], {}])
             return ["c", self.gen_path(chain, maxlen=3, pdepth=pdepth, minlen=0 if rng.random() < 0.1 else 1), rng.choice(OPS), enc(c)]
         if r < 0.9 and pdepth < self.max_pred_depth:
-            return ["pred", self.gen_pred(chain, pdepth + 1)]
+            return ["pred", self.gen_pred(chain, pdepth + 1, custom=rng.random() < 0.6)]
         if allow_tuple:
             return ["tup", self.gen_arg(chain, pdepth, False), self.gen_fns()]
         return ["p", self.gen_path(chain, maxlen=2, pdepth=pdepth, minlen=1)]
 
-    def gen_pred(self, chain, pdepth):
+    def gen_pred(self, chain, pdepth, custom=False):
         rng = self.rng
         prof = self.pred_profile
         r = rng.random()
-        if prof == "custom":
+        if custom:
+            r = r * 0.25
+        elif prof == "custom":
             r = r * 0.3
         elif prof == "has":
             r = 0.3 + r * 0.7
@@ -245,7 +247,7 @@ class PathGen:
                 cases = [[rng.choice(["dict", "list", None]), self.gen_out()] for _ in range(rng.randint(1, 2))]
             return ["tab", sel, cases, self.gen_out()]
         if r < 0.30:
-            return ["nb", rng.choice(["m", "v", "x"]), self.gen_path(chain, maxlen=3, pdepth=pdepth, minlen=1)]
+            return ["nb", rng.choice(["m", "v", "x", "mt", "vt"]), self.gen_path(chain, maxlen=3, pdepth=pdepth, minlen=1)]
         if r < 0.62:
             return ["has", self.gen_arg(chain, pdepth, False), self.gen_fns()]
         if r < 0.74:
